@@ -180,6 +180,29 @@ impl Sim {
         c
     }
 
+    /// Second look before a rendering difference is blamed on a value: the lineage is replayed
+    /// afresh and both sides are rendered again, now. If they agree this time, the earlier
+    /// difference came from a renderer whose output is not a function of the statement (hidden
+    /// global / per-thread state) — not from the values compared.
+    fn rerender_differs(&mut self, log: &Log, v: &Stmt) -> Result<bool, Stop> {
+        let fresh = guarded(|| replay(log))
+            .map_err(|e| Stop::Harness(format!("lineage replay panicked: {}", e)))?;
+        let e2 = canon(&fresh, false);
+        let g2 = canon(v, true);
+        // ... or if one and the same value renders differently twice in a row
+        if e2 == g2 || canon(&fresh, false) != e2 || canon(v, true) != g2 {
+            self.stats.probe("rendering_depends_on_hidden_state_not_on_the_value");
+            Ok(false)
+        } else {
+            Ok(true)
+        }
+    }
+
+    /// one and the same live value renders differently twice in a row
+    fn live_unstable(&self, h: HandleId) -> bool {
+        self.live_canon(h) != self.live_canon(h)
+    }
+
     fn live_canon(&self, h: HandleId) -> Vec<String> {
         let a = self.arena.borrow();
         canon(a.get(h).expect("HARNESS: live_canon of dead handle"), true)
@@ -198,7 +221,18 @@ impl Sim {
         let exp = self.expected(h)?;
         let got = self.live_canon(h);
         self.stats.check(check);
-        if *exp != got {
+        // C10 speaks about rendered INSERTs: where the live statement does not render at all
+        // (a panic where the lineage renders) there is no rendered INSERT to judge, here as in
+        // the structural check below
+        let c10 = self.c10();
+        let differs = |e: &[String], g: &[String]| {
+            if !c10 {
+                return e != g;
+            }
+            e.len() != g.len()
+                || e.iter().zip(g).any(|(e, g)| e != g && !(g.starts_with("PANIC:") && e.starts_with("OK:")))
+        };
+        if differs(&exp, &got) {
             // Before blaming the statement: render both sides again, now. If a fresh replay and
             // the live handle agree at this moment, the earlier difference came from rendering
             // that is not a pure function of the statement (hidden global / per-thread state in
@@ -208,7 +242,7 @@ impl Sim {
                 .map_err(|e| Stop::Harness(format!("lineage replay panicked: {}", e)))?;
             let exp2 = canon(&fresh, false);
             let got2 = self.live_canon(h);
-            if exp2 == got2 {
+            if !differs(&exp2, &got2) || canon(&fresh, false) != exp2 || self.live_unstable(h) {
                 self.stats.probe("rendering_depends_on_hidden_state_not_on_the_value");
                 let m = self.model.get_mut(&h).unwrap();
                 m.rep = Some(fresh);
@@ -221,7 +255,19 @@ impl Sim {
             ));
         }
         if self.c10() && self.model[&h].fam == Family::Insert {
-            self.check_insert_render(h)?;
+            if let Err(first) = self.check_insert_render(h) {
+                // same second look for the structural reading of the rendered INSERT
+                match (first, self.check_insert_render(h)) {
+                    (Stop::Violation(_), Ok(())) => {
+                        self.stats.probe("rendering_depends_on_hidden_state_not_on_the_value");
+                    }
+                    (Stop::Violation(_), Err(_)) if self.live_unstable(h) => {
+                        self.stats.probe("rendering_depends_on_hidden_state_not_on_the_value");
+                    }
+                    (Stop::Violation(_), Err(second)) => return Err(second),
+                    (first, _) => return Err(first),
+                }
+            }
         }
         Ok(())
     }
@@ -736,7 +782,8 @@ impl Sim {
             ));
         }
         let got = canon(&taken, true);
-        if *exp != got {
+        let src_log = self.model[&src].log.clone();
+        if *exp != got && self.rerender_differs(&src_log, &taken)? {
             return Err(self.viol(
                 "take.returns_all",
                 format!("{:?}: taken value renders differently: {}", fam, diff(&exp, &got)),
@@ -758,7 +805,10 @@ impl Sim {
                     format!("{:?}: statement left behind by take() != newly constructed", fam),
                 ));
             }
-            if *fresh != left {
+            if *fresh != left
+                && canon(&Stmt::fresh(fam), false) != self.live_canon(src)
+                && !self.live_unstable(src)
+            {
                 return Err(self.viol(
                     "take.leaves_fresh",
                     format!("{:?}: left-behind renders differently from new(): {}", fam, diff(&fresh, &left)),
@@ -807,7 +857,8 @@ impl Sim {
             }
         }
         let got = canon(&c, true);
-        if *exp != got {
+        let src_log = self.model[&src].log.clone();
+        if *exp != got && self.rerender_differs(&src_log, &c)? {
             return Err(self.viol(
                 "clone.equal",
                 format!("{:?}: clone renders differently from its source: {}", fam, diff(&exp, &got)),
@@ -852,8 +903,10 @@ impl Sim {
             }
         }
         let got = canon(&d, true);
+        let src_log = self.model[&src].log.clone();
+        let differs = *exp != got && self.rerender_differs(&src_log, &d)?;
         self.arena.borrow_mut().put(dst, d);
-        if *exp != got {
+        if differs {
             return Err(self.viol(
                 "clone.equal",
                 format!("{:?}: after dst.clone_from(&src), dst renders differently from src: {}", fam, diff(&exp, &got)),
@@ -974,7 +1027,15 @@ impl Sim {
         };
         let exp = observe_one(self.model[&h].rep.as_ref().unwrap(), &clean, false);
         if !fired && !writer_fault {
-            if exp.out != res.out {
+            let second_look_differs = |sim: &Self| {
+                let a = sim.arena.borrow();
+                let live2 = observe_one(a.get(h).unwrap(), &clean, true);
+                let exp2 = observe_one(sim.model[&h].rep.as_ref().unwrap(), &clean, false);
+                let live3 = observe_one(a.get(h).unwrap(), &clean, true);
+                live2.out != exp2.out && live3.out == live2.out
+            };
+            let no_rendered_insert = self.c10() && res.out.is_err() && exp.out.is_ok();
+            if exp.out != res.out && !no_rendered_insert && second_look_differs(self) {
                 return Err(self.viol(
                     "observe.pure",
                     format!(
